@@ -1,5 +1,6 @@
 import XmppModel.Lemmas.NegotiateAdv
 import XmppModel.Lemmas.NegotiateFault
+import XmppModel.Lemmas.NegotiateDone
 /-!
 The invariants of the negotiation machine hold in every reachable configuration (initial
 configuration + preservation by `step`, lifted by induction on the number of steps).
@@ -86,5 +87,32 @@ theorem invS_reach {c : Conf} (h : Reach C O st0 script picks c) : InvS script c
   refine reach_ind (P := InvS script) ?_ (fun c _ hc => invS_step C O script c hc) c h
   refine ⟨fun p hp => hp, ?_⟩
   intro h; cases h
+
+theorem invQ_reach {c : Conf} (h : Reach C O st0 script picks c) : InvQ c := by
+  refine reach_ind (P := InvQ) ?_ (fun c _ hc => invQ_step C O c hc) c h
+  refine ⟨?_, fun _ _ => rfl, ?_⟩
+  · intro e he; cases he
+  · intro _ _ h; cases h
+
+theorem invR_reach {c : Conf} (h : Reach C O st0 script picks c) : InvR st0 c := by
+  refine reach_ind (P := InvR st0) ?_ ?_ c h
+  · refine ⟨?_, ?_⟩
+    · intro _ _ h; cases h
+    · intro _ hr; exact Or.inl hr
+  · intro c hc hr
+    exact invR_step C O st0 c (invC_reach hc) (invC2_reach hc) (invQ_reach hc) hr
+
+theorem allowed_mandatory {cands : List Entry} {e : Entry} (he : e ∈ allowed cands)
+    (hr : e.req = true) : ∀ e' ∈ cands, e'.req = true := by
+  unfold allowed at he
+  split at he
+  · have := (List.mem_filter.mp he).2
+    simp [hr] at this
+  · rename_i hany
+    intro e' he'
+    cases hq : e'.req
+    · exfalso; apply hany
+      exact List.any_eq_true.mpr ⟨e', he', by simp [hq]⟩
+    · rfl
 
 end XmppModel.Negotiate
